@@ -6,12 +6,13 @@ ID=$1; OUT=$2; ORIG=${3:-/tmp/seed_$ID}; WT=/tmp/confirm_$ID; DEMO=/tmp/confirm_
 git -C /repo worktree remove --force $WT 2>/dev/null; rm -rf $DEMO
 git -C /repo worktree add -q --detach $WT HEAD || exit 2
 cp -r $OUT/demo $DEMO; rm -rf $DEMO/target
-grep -rl "$ORIG" $DEMO --include=Cargo.toml --include=build.rs | xargs -r sed -i "s#$ORIG#$WT#g"
+grep -rl "$ORIG" $DEMO --include=Cargo.toml --include=build.rs --include=run.sh | xargs -r sed -i "s#$ORIG#$WT#g"
 cp $WT/Cargo.lock $DEMO/Cargo.lock 2>/dev/null
 export CARGO_TARGET_DIR=/tmp/confirm_${ID}_target
-( cd $DEMO && cargo run --offline -q >/tmp/confirm_${ID}_clean.log 2>&1 ); CLEAN=$?
+rundemo() { if [ -f $DEMO/run.sh ]; then ( cd $DEMO && sh run.sh ); else ( cd $DEMO && cargo run --offline -q ); fi; }
+rundemo >/tmp/confirm_${ID}_clean.log 2>&1; CLEAN=$?
 git -C $WT apply $OUT/patch.diff || { echo "patch does not apply"; exit 2; }
-( cd $DEMO && cargo run --offline -q >/tmp/confirm_${ID}_seeded.log 2>&1 ); SEEDED=$?
+rundemo >/tmp/confirm_${ID}_seeded.log 2>&1; SEEDED=$?
 ( cd $WT && CARGO_TARGET_DIR=/tmp/confirm_${ID}_target_ws cargo test --workspace --no-fail-fast --offline 2>&1 | grep -E "^test result" | awk '{p+=$4; f+=$6} END {print "tests passed", p, "failed", f}' ) > /tmp/confirm_${ID}_tests.log
 echo "$ID: demo clean exit=$CLEAN seeded exit=$SEEDED; $(cat /tmp/confirm_${ID}_tests.log)"
 tail -2 /tmp/confirm_${ID}_seeded.log | cut -c1-200
